@@ -722,7 +722,10 @@ func NewCache(k string) (cache.BlobCache, string, error) {
 	if err != nil {
 		return nil, "", err
 	}
-	c, err := cache.NewDirectoryCache(dir, cache.DirectoryCacheConfig{SyncAdd: true, Direct: k == "dirdirect"})
+	// "dir": every entry stays in the in-memory LRU (so Get never hands out an *os.File and the
+	// answer of GetPassthroughFd does not depend on LRU evictions); "dirdirect": files only.
+	c, err := cache.NewDirectoryCache(dir, cache.DirectoryCacheConfig{SyncAdd: true, Direct: k == "dirdirect",
+		MaxLRUCacheEntry: 1 << 20, MaxCacheFds: 64})
 	return c, dir, err
 }
 
